@@ -64,20 +64,28 @@ def splitWs (s : List Char) : List (List Char) :=
       else go t (c :: cur) acc
   go s [] []
 
-/-- rows selected by one specifier -/
+/-- `ORDER BY rowid DESC LIMIT 1`: the row with the greatest rowid -/
+def pickLast : List RLexicon → Option RLexicon
+  | [] => none
+  | r :: t => match pickLast t with
+    | none => some r
+    | some x => if x.rowid < r.rowid then some r else some x
+
+/-- the `WHERE` clause of `find_lexicons` for one specifier -/
+def specPattern (spec : List Char) : List Char := if spec.contains ':' then spec else spec ++ [':', '*']
+
+def specMatches (spec : List Char) (lang : Option String) (r : RLexicon) : Bool :=
+  globL (specPattern spec) (r.id ++ ":" ++ r.version).toList &&
+  (match lang with | none => true | some l => r.language == l)
+
+/-- rows selected by one specifier: a bare id (no `*`, no `:`) is limited to the most recently
+added matching lexicon -/
 def matchSpecifier (db : Db) (spec : List Char) (lang : Option String) : List RLexicon :=
-  let limited := !(spec.contains '*' || spec.contains ':')
-  let pat := if spec.contains ':' then spec else spec ++ [':', '*']
-  let rows := db.lexicons.filter (fun r =>
-    globL pat (r.id ++ ":" ++ r.version).toList &&
-    (match lang with | none => true | some l => r.language == l))
-  if limited then
-    -- ORDER BY rowid DESC LIMIT 1
-    match rows.foldl (fun (m : Option RLexicon) r =>
-        match m with | none => some r | some x => if x.rowid < r.rowid then some r else some x) none with
+  let rows := db.lexicons.filter (specMatches spec lang)
+  if spec.contains '*' || spec.contains ':' then rows
+  else match pickLast rows with
     | some r => [r]
     | none => []
-  else rows
 
 /-- `find_lexicons(lexicon, lang)`: `none` = `wn.Error` (nothing found although the request
 specifies something) -/
